@@ -32,6 +32,27 @@ Theorem C09_eos_sync_idempotent : forall T P (O : @EOps T P) a0dt (s : @est P),
 Proof. intros. apply e_sync_idem. Qed.
 Print Assumptions C09_eos_sync_idempotent.
 
+(* ------------------------------------------------------------------ corners excluded by hypotheses of the theorems below
+   - [w_init_ok c = false] (configuration rejected by reb_integrator_whfast_init: correctors or non-default kernels with
+     non-Jacobi coordinates, variational particles with them, invalid corrector order): synchronize and part1 return
+     at once and change nothing (theorem below); part2 still runs its kernel when a cache exists.  The library reports
+     an error at every call; after correcting the configuration the run continues like a fresh one (searcher scenario).
+   - zero steps: C09_*_unsafe_eq_safe are stated for S n steps (the full states differ in alloc/recalc before the first
+     step); the _observed versions cover n = 0.
+   - [coherent] / [Good] start states: any synchronized state whose coordinates will be recomputed or are current; a
+     synchronized state with a stale cache and no recalculation pending is what safe_mode = 0 documents as user error.
+   - an EMPTY simulation (N = 0) is outside the model (it has no notion of N): the library dereferences particles[0] in
+     step() for WHFast / SABA / MERCURIUS (open finding step-without-particles-crashes); synchronize alone is harmless.
+   - dt = 0, dt < 0, -0.0, subnormal / huge / non-finite dt and coordinates, N = 1, 2, massless or coincident bodies,
+     e -> 1 and hyperbolic orbits: nothing in theorems (b), (c) excludes them (no law is used: bitwise, NaN included;
+     exercised by the searcher's corner scenarios); theorems (a) need the flow laws, which for the concrete operators
+     hold on the elliptic domain only ([wj_dom]): elsewhere only the numerical evidence of the searcher exists. *)
+Theorem C09_whfast_rejected_configuration_is_inert :
+  forall T (N : Num T) P J (O : @WOps T P J) dt (c : wcfg) (s : @wst P J),
+  w_init_ok c = false -> w_sync N O dt c s = s /\ w_part1 N O dt c s = s.
+Proof. intros T N P J O dt c s h. exact (w_rejected_inert N O dt c s h). Qed.
+Print Assumptions C09_whfast_rejected_configuration_is_inert.
+
 (* ------------------------------------------------------------------ (b) keep_unsynchronized: inserted calls are invisible.
    WHFast, every kernel / corrector / coordinate system accepted by reb_integrator_whfast_init, with or without
    variational particles (MEGNO branch of part2 included), ANY operators (no law), any start state, any sequence of
